@@ -101,7 +101,13 @@ def equal_elem(a, b):
     """Elements equal for all values of the symbols?"""
     sa, sb = E.is_sym(a), E.is_sym(b)
     if not sa and not sb:
-        return (a != a and b != b) or a == b
+        if (a != a and b != b) or a == b:
+            return True
+        try:
+            import math
+            return math.isclose(float(a), float(b), rel_tol=1e-9, abs_tol=1e-12)      # concrete floats computed by real numpy (e.g. log): summation order
+        except (TypeError, ValueError):
+            return False
     if E.is_special(a) or E.is_special(b):
         return False
     ta, tb = E.R(E.to_real(a, None)) if sa else E.R(a), E.R(E.to_real(b, None)) if sb else E.R(b)
